@@ -117,6 +117,9 @@ func (h *Handler) SendDiscoverPacket(chAddr net.HardwareAddr, ciAddr netip.Addr,
 	if Logger.IsDebug() {
 		Logger.Msg("send discover packet").ByteArray("xid", xid).MAC("from", chAddr).IP("ciaddr", ciAddr).Write()
 	}
+	if len(chAddr) != packet.EthAddrLen { // chaddr / hlen of an Ethernet client: nil would keep the stale bytes of the buffer
+		return packet.ErrInvalidMAC
+	}
 	// the message is built in a recycled buffer: fields the caller leaves unset must not keep stale bytes
 	if !ciAddr.Is4() {
 		ciAddr = packet.IPv4zero
